@@ -10,7 +10,7 @@ Code modelled (src/server/mod.rs, src/client/mod.rs, bevy 0.14 run conditions an
   at the start of the next frame;
 * `server_connected` (transport added ∧ Disconnected) → Connected + `InitialSyncFinished`;
   `server_disconnected` (transport removed ∧ Connected) → Disconnected;
-  `set_client_to_connecting` (added ∧ Disconnected); `verify_client_connected` (transport ∧ Connecting:
+  `set_client_to_connecting` (added; before its repair: added ∧ Disconnected, `strict`); `verify_client_connected` (transport ∧ Connecting:
   if `RenetClient::is_connected()` → Connected, and a `RequestInitialSync` unless a promotion is in progress);
   `set_client_to_disconnected` (removed ∧ state ≠ Disconnected; `legacy`: only in Connected).
 The application inserts / removes transports between frames; the netcode handshake is the input
@@ -56,12 +56,15 @@ deriving Repr, DecidableEq
 
 def Client.insert (c : Client) : Client := { c with transport := true, added := true, renetConnected := false }
 def Client.remove (c : Client) : Client := { c with transport := false, added := false, renetConnected := false }
-def Client.setConnected (c : Client) (b : Bool) : Client := { c with renetConnected := b && c.transport }
+/-- the handshake cannot complete before the new transport has run in at least one frame -/
+def Client.setConnected (c : Client) (b : Bool) : Client := { c with renetConnected := b && c.transport && !c.added }
 
-def Client.frame (legacy : Bool) (c : Client) : Client :=
+def Client.frame (legacy : Bool) (c : Client) (strict : Bool := false) : Client :=
   let st := c.next.getD c.state
   let fires := !c.transport && c.existed
-  let runConnecting := c.transport && c.added && st == .disconnected
+  -- `strict`: before its repair `set_client_to_connecting` also required `in_state(Disconnected)`, so a transport removed and
+  -- inserted again between two frames (never passing through Disconnected) did not start a new join
+  let runConnecting := c.transport && c.added && (!strict || st == .disconnected)
   let runVerify := c.transport && st == .connecting && c.renetConnected
   let runDisc := fires && (if legacy then st == .connected else st != .disconnected)
   { c with added := false, existed := c.transport, state := st,
@@ -74,11 +77,11 @@ inductive Op where
   | insert | remove | setConnected (b : Bool) | frame
 deriving Repr, DecidableEq
 
-def Client.step (legacy : Bool) (c : Client) : Op → Client
+def Client.step (legacy strict : Bool) (c : Client) : Op → Client
   | .insert => c.insert
   | .remove => c.remove
   | .setConnected b => c.setConnected b
-  | .frame => c.frame legacy
+  | .frame => c.frame legacy strict
 
 def Server.step (s : Server) : Op → Server
   | .insert => s.insert
